@@ -206,7 +206,8 @@ func c14LeaseSet2(s gen.Signed, d string) c14Outcome {
 		o.ctorErr = adapt.ErrNotConstructible{Why: err.Error()}
 		return o
 	}
-	m, _ := data.GoMapToMapping(ls.Options.ToMap())
+	lm, _ := adapt.LibMappingOf(ls.Options) // out-of-order options keep their wire order (they can only have been received)
+	m := &lm
 	var keys []lease_set2.EncryptionKey
 	for i, k := range ls.Keys {
 		kl := len(k.Data)
